@@ -80,9 +80,24 @@ def run(ctx):
                 variants.append((own, [p for p in pcs if not is_empty_piece(p)]))
             elif len(ites) == 1:
                 it = ites[0]
-                c = N(it[1])
-                for (g, val) in ((c, it[2]), (G.negate(c), it[3])):
-                    variants.append(([g], [p for p in [val if q is it else q for q in pcs] if not is_empty_piece(p)]))
+
+                def leaves(t, conds):
+                    # the leaves of a (possibly nested) choice partition the inputs: (conjunction of tests, value)
+                    if t[0] == "ite":
+                        c = N(t[1])
+                        return leaves(t[2], conds + [c]) + leaves(t[3], conds + [G.negate(c)])
+                    return [(conds, t)]
+                lv = leaves(it, [])
+                if len(lv) > 2:
+                    # `match s { [.., 0] => &[], _ => &[0] }`: exactly one leaf differs from all the others; the others together are
+                    # its complement (leaves partition), so the choice is: (tests of that leaf) ? its value : the common value
+                    for (cs, val) in lv:
+                        rest_v = {v_ for (c2, v_) in lv if c2 is not cs}
+                        if len(rest_v) == 1 and val not in rest_v:
+                            lv = [(cs, val), ([("not", ("and", tuple(cs)))], next(iter(rest_v)))]
+                            break
+                for (cs, val) in lv:
+                    variants.append((cs, [p for p in [val if q is it else q for q in pcs] if not is_empty_piece(p)]))
         ok_n = len(variants) == 2 and sarg is not None
         with_nul = without = None
         why = "exits %d, variants %d" % (len(exs), len(variants))
@@ -94,12 +109,19 @@ def run(ctx):
                 equality compares the bytes)"""
                 if f == cond:
                     return True
+                if f[0] == "and":
+                    # slice pattern `[.., 0]`: len >= 1 and the last element (ConstantIndex 1 from the end) is 0
+                    fs = set(f[1])
+                    nonempty = {("cmp", "Ge", ("len", sarg), ("c", 1)), ("cmp", "Gt", ("len", sarg), ("c", 0)), ("cmp", "Ne", ("len", sarg), ("c", 0))}
+                    last0 = ("cmp", "Eq", ("cidx", ("deref", sarg), 1, True), ("c", 0))
+                    return len(fs) == 2 and last0 in fs and len(fs & nonempty) == 1
                 if f[0] == "istrue" and f[1][0] == "call" and f[1][1] == "<core::option::Option<&u8> as core::cmp::PartialEq>::eq":
                     a_, b_ = [SEL.unref(x) for x in f[1][2]]
                     for (x, y) in ((a_, b_), (b_, a_)):
                         if x == ("call", "core::slice::<impl [u8]>::last", (sarg,)) and y[0] == "cs" and len(y) == 4 and y[2] == "Some" and y[3] == (("ptrto", 0),):
                             return True
                 return False
+            variants = [([("and", tuple(own))] if len(own) > 1 else own, pcs) for own, pcs in variants]
             for own, pcs in variants:
                 if len(own) == 1 and same_test(own[0]):
                     with_nul = pcs
